@@ -10,7 +10,7 @@ for d in $list; do
   r=$(tools/run_seed.sh $s quick 2>&1 | head -3 | tr '\n' ' ' | cut -c1-260)
   echo "$r" >> $out
   case "$r" in *"exit 0"*)
-    alt=""; [ "$s" = "C01-4" ] && alt=C12; [ "$s" = "C06-4" ] && alt=C11; [ "$s" = "C01-6" ] && alt=C11; [ "$s" = "C09-6" ] && alt=C03; [ "$s" = "C01-7" ] && alt=C16; [ "$s" = "C15-8" ] && alt=C06; [ "$s" = "C02-9" ] && alt=C11; [ "$s" = "C06-9" ] && alt=C11; [ "$s" = "C04-7" ] && alt=C15; [ "$s" = "C02-11" ] && alt=C01; [ "$s" = "C05-12" ] && alt=C10; [ "$s" = "C06-12" ] && alt=C12; [ "$s" = "C07-10" ] && alt=C08; [ "$s" = "C06-2" ] && alt=C01; [ "$s" = "C06-13" ] && alt=C18; [ "$s" = "C06-14" ] && alt=C11; [ "$s" = "C18-13" ] && alt=C15; [ "$s" = "C20-12" ] && alt=C19
+    alt=""; [ "$s" = "C01-4" ] && alt=C12; [ "$s" = "C06-4" ] && alt=C11; [ "$s" = "C01-6" ] && alt=C11; [ "$s" = "C09-6" ] && alt=C03; [ "$s" = "C01-7" ] && alt=C16; [ "$s" = "C15-8" ] && alt=C06; [ "$s" = "C02-9" ] && alt=C11; [ "$s" = "C06-9" ] && alt=C11; [ "$s" = "C04-7" ] && alt=C15; [ "$s" = "C02-11" ] && alt=C01; [ "$s" = "C05-12" ] && alt=C10; [ "$s" = "C06-12" ] && alt=C12; [ "$s" = "C07-10" ] && alt=C08; [ "$s" = "C06-2" ] && alt=C01; [ "$s" = "C12-15" ] && alt=C11; [ "$s" = "C16-16" ] && alt=C10; [ "$s" = "C06-13" ] && alt=C18; [ "$s" = "C06-14" ] && alt=C11; [ "$s" = "C18-13" ] && alt=C15; [ "$s" = "C20-12" ] && alt=C19
     [ -n "$alt" ] && tools/run_seed.sh $s quick $alt 2>&1 | head -3 | tr '\n' ' ' | cut -c1-260 >> $out && echo >> $out;;
   esac
 done
